@@ -35,6 +35,9 @@ pub struct Sess {
     pub cust: CredentialUpdateSessionToken,
     pub link: usize,
     pub pw: Option<usize>,
+    /// the password in force when the session was opened: a session commits its whole view of
+    /// the credentials, so a commit without a password edit puts this one (back) in force
+    pub snapshot_pw: Option<usize>,
     pub superseded: bool,
     pub finished: bool,
     /// when the session was opened (sessions have a lifetime of their own)
@@ -164,7 +167,7 @@ impl World for Reset {
                                 s.superseded = true;
                             }
                         }
-                        self.sess.push(Sess { cust, link: *l, pw: None, superseded: false, finished: false, started: self.now });
+                        self.sess.push(Sess { cust, link: *l, pw: None, snapshot_pw: self.current_pw, superseded: false, finished: false, started: self.now });
                         "ok".into()
                     }
                     Err(e) => format!("err:{e:?}"),
@@ -184,9 +187,9 @@ impl World for Reset {
             Op::Commit(i) => {
                 let cust = CredentialUpdateSessionToken { token_enc: self.sess[*i].cust.token_enc.clone() };
                 let r = self.idm.write(ct, |w| w.commit_credential_update(&cust, ct));
-                let (link, superseded, finished, pw) = {
+                let (link, superseded, finished, pw, snapshot_pw) = {
                     let s = &self.sess[*i];
-                    (s.link, s.superseded, s.finished, s.pw)
+                    (s.link, s.superseded, s.finished, s.pw, s.snapshot_pw)
                 };
                 if r.is_ok() {
                     let expires = self.links[link].as_ref().map(|l| l.expires).unwrap_or(0);
@@ -205,9 +208,9 @@ impl World for Reset {
                     }
                     let _ = expires;
                     self.sess[*i].finished = true;
-                    if pw.is_some() {
-                        self.current_pw = pw;
-                    }
+                    // (whether a stale session should be allowed to put an older password back is
+                    // not what this property is about; the model follows the code here)
+                    self.current_pw = if pw.is_some() { pw } else { snapshot_pw };
                 }
                 srv::opstr(&r)
             }
@@ -260,7 +263,7 @@ impl World for Reset {
             }
         }
         for s in &self.sess {
-            h.write_str(&format!("S{}:{:?}:{}:{}:{}", s.link, s.pw, s.superseded, s.finished, now - s.started));
+            h.write_str(&format!("S{}:{:?}:{:?}:{}:{}:{}", s.link, s.pw, s.snapshot_pw, s.superseded, s.finished, now - s.started));
         }
         h.write_str(&format!("{:?}", self.current_pw));
         h.finish()
